@@ -113,7 +113,7 @@ def run(chk, tier, seed):
                     bad = None
                     if not raised:
                         bad = 'did not raise'
-                    elif dt > 1.0 or pulls['n'] > 2 * (lim + 1) or any(b < 1 for b in pulls['budgets']):
+                    elif dt > 10.0 or pulls['n'] > 2 * (lim + 1) or any(b < 1 for b in pulls['budgets']):
                         bad = f'not fail-fast: {dt:.2f}s, {pulls["n"]} items pulled, budgets {pulls["budgets"]}'
                     if bad:
                         chk.violation(dict(obligation='C11.bounded.fail_fast', api=name, patterns=pats, exclude=excl, limit=lim),
